@@ -17,9 +17,12 @@ Domain : recursive patterns (scalars, regex, lists, sets, dicts; depth <= 3) x p
          One scalar in eight is a LARGE number (integers 1e9..1e19, floats up to 1e300); payload mutation `neighbour-number` (+-1, adjacent
          float, relative 1e-12..1e-9).  One parameter case in seven holds LONG received strings (case["long"], a compact description that
          prop() expands: the short text at the start of / inside around position 4096 / at the very end of 4 096-20 000 filler characters).
+         Form "seq": 3-5 events at ONE waiting statement (loop, with / without `as $ref`), every event judged; mostly a regex leaf against
+         values that are == but print differently (1, 1.0, True, "1" ...) in every order (table enumerated first); bool events are sent, not judged.
 Oracle : an independent recursive matcher written from the property text / the language reference.
          Verdict is compared with "does `Hit` appear in the outgoing events".
 """
+import itertools
 import math
 import re
 import warnings
@@ -74,7 +77,16 @@ RULE = (
     "(three times in four) or anywhere; prop() expands the description, the oracle (re.search on the WHOLE value) judges the expanded payload - top level or nested in lists / sets / dicts, also under many extras "
     "(labels long-value, long-4000-4999 / 5000-9999 / 10000+, long-text-at-start / -mid / -end, long-text-ends-at-4096 / -around-4096 / -elsewhere, long-on-regex-leaf / -other-leaf, long-top-level / -nested); plus "
     "the long-string table: every pool regex (both pools, ^ and $ anchored ones included) x (witness, non-witness) x placement (start, very end, inside ending one before / at / one behind position 4096, "
-    "inside starting at 4090 / 4100) with sizes, fillers, shapes (bare, longer list, larger dict, dict inside a list), forms and priorities rotating. Both tables are enumerated first."
+    "inside starting at 4090 / 4100) with sizes, fillers, shapes (bare, longer list, larger dict, dict inside a list), forms and priorities rotating. Both tables are enumerated first. "
+    "EVENT SEQUENCES (form seq, one generated case in thirteen): 3-5 events reach ONE waiting statement one after the other (`while True` / `match Ev(p=P)` with or without `as $ref` / `send Hit()`, pattern literal or held in a "
+    "variable, optional priority); EVERY event is judged on its own value by the reference matcher (kind match-verdict-event-sequence). Three sequences in four compare a regex leaf (pool ^1$ ^1 rue \\.0$ ^0$ alse \\. ^3$ ^2$ "
+    "^\\d+$ ^[0-9.]+$ 1\\d*0 0$ ^(?!.*\\.); bare / inside a longer list / a larger dict / a larger set / a list inside a dict) with the members of ONE group of values that are == in Python but print differently - "
+    "{1, 1.0, True, '1', '1.0'}, {0, 0.0, False, '0', '0.0'}, {3, 3.0, '3', '3.0'}, {2, 2.0, '2', '2.0'}, {120, 120.0, '120'} - in a drawn order (a permutation of the group, then repeats); the regex is searched in str(value), "
+    "so `regex(\"^1$\")` is found in 1 and '1' but not in 1.0. A bool against a regex is unspecified: such an event is SENT (it is part of what the statement has seen) but its own verdict is not judged (label "
+    "seq-with-unjudged-bool-event). One sequence in four takes any pattern of depth <= 2 and 3-5 mutated witnesses. Labels event-sequence, seq-events-3/4/5, seq-shape-*, seq-equal-values / seq-generic / seq-table, "
+    "seq-equal-values-different-verdict (an earlier event carried an == value of another type/text with another verdict; this makes the case non-trivial), seq-deciding-event-N (position of the first such event), seq-match-and-no-match, "
+    "seq-with-capture / seq-without-capture. Plus the sequence table, enumerated FIRST: (1, 1.0, True, '1') x (^1$, rue, \\.0$, ^1), (0, 0.0, False) x (^0$, alse, \\.), (3, 3.0, '3.0') x (^3$, \\.0$), (2, 2.0, '2') x (^2$, \\.) - "
+    "EVERY order of the group followed by its first value once more, shapes / literal-or-variable / capture / priorities rotating."
 )
 ASSUMPTIONS = [
     "a string literal in a statement denotes the text obtained by the Python string-literal rules (\\t TAB, \\n newline, \\\\ one backslash, \\\" and \\' the quote, \\uXXXX the code point, either quote "
@@ -95,6 +107,9 @@ ASSUMPTIONS = [
     "a reference-based statement is judged only against events that arrive while it is waiting: an object that finished before the statement was reached (again) is not waited for successfully, "
     "and every object receives its Finished / Started event at most once",
     "an action event whose action_uid is None or unknown belongs to no referenced instance (as in the single-visit instance cases)",
+    "event sequences: every event that reaches a waiting statement is judged on its own value, whatever the statement (or any other) has judged before; 1, 1.0 and '1' are different values for a regex leaf "
+    "because the regex is searched in str(value) ('1', '1.0', '1'); after any event - matched, not matched, or of unspecified verdict (bool against a regex) - the loop is waiting at the same statement again, "
+    "so the next event's verdict is specified; scalar (non-regex) leaves are never compared with == values of another numeric type in the equal-values sequences",
 ]
 
 REGEX = [
@@ -711,9 +726,11 @@ def _rebind_case(draw):
 
 @st.composite
 def _case(draw):
-    form = draw(st.sampled_from(["param"] * 8 + ["action_instance", "flow_instance", "ref_rebind", "ref_rebind"]))
+    form = draw(st.sampled_from(["param"] * 8 + ["action_instance", "flow_instance", "ref_rebind", "ref_rebind", "seq"]))
     if form == "ref_rebind":
         return draw(_rebind_case())
+    if form == "seq":
+        return draw(_seq_case())
     if form != "param":
         target = draw(st.sampled_from([0, 1, 2, "none", "missing", "unknown"]))
         return {"form": form, "which": draw(st.integers(0, 2)), "target": target, "n": 3, "with_args": draw(st.booleans()), "event": draw(st.sampled_from(["Finished", "Started"])), "priority": draw(priority)}
@@ -781,6 +798,86 @@ def _case(draw):
     return case
 
 
+# ---------------------------------------------------------------------------------------------
+# SEQUENCES of 3-5 events at ONE waiting statement (loop, optionally with `as $ref`): every event is judged on its own value.
+# Main sub-domain: a regex leaf compared with values that are == in Python but PRINT differently (1, 1.0, True, "1", "1.0"):
+# a regex is searched in str(value), so `regex("^1$")` is found in 1 and "1", not in 1.0 ("1.0").  Regex against a bool is
+# unspecified (see ref_match): such an event is still SENT (it is part of the history the statement has seen) but its own
+# verdict is not judged.
+SEQ_GROUPS = [
+    [1, 1.0, True, "1", "1.0"],
+    [0, 0.0, False, "0", "0.0"],
+    [3, 3.0, "3", "3.0"],
+    [2, 2.0, "2", "2.0"],
+    [120, 120.0, "120"],
+]
+SEQ_REGEX = ["^1$", "^1", "rue", "\\.0$", "^0$", "alse", "\\.", "^3$", "^2$", "^\\d+$", "^[0-9.]+$", "1\\d*0", "0$", "^(?!.*\\.)"]
+SEQ_SHAPES = ["bare", "list", "dict", "set", "dict-list"]
+
+
+def _seq_shape(shape, rx, v):
+    """(pattern, received value) with the regex leaf / the value at the same position of one of five shapes."""
+    return (
+        (rx, v),
+        (["a", rx], ["0", "a", v, "z"]),
+        ({"k1": rx}, {"k1": v, "k2": 2}),
+        ({"__set__": [rx]}, {"__set__": _uniq([v, "zz"])}),
+        ({"k1": [rx]}, {"k1": ["-", v], "k2": 2}),
+    )[shape]
+
+
+@st.composite
+def _seq_case(draw):
+    style = draw(style_st)
+    n = draw(st.integers(3, 5))
+    events = []
+    if draw(st.integers(0, 3)) > 0:
+        # values that are == but print differently, in a drawn order (a permutation of the group first, then repeats)
+        group = draw(st.sampled_from(SEQ_GROUPS))
+        rx = {"__regex__": draw(st.sampled_from(SEQ_REGEX))}
+        shape = draw(st.integers(0, len(SEQ_SHAPES) - 1))
+        vals = list(draw(st.permutations(group)))[:n]
+        while len(vals) < n:
+            vals.append(draw(st.sampled_from(group)))
+        P = _seq_shape(shape, rx, None)[0]
+        for v in vals:
+            events.append({"payload": {"p": _seq_shape(shape, rx, v)[1]}, "extra": draw(st.dictionaries(st.sampled_from(["x"]), scalar, max_size=1))})
+        mut, shape_name = ["seq-equal-values"], SEQ_SHAPES[shape]
+    else:
+        # any pattern, every event a mutated witness
+        P = draw(pattern(2))
+        for _ in range(n):
+            V = witness(P)
+            for _ in range(draw(st.sampled_from([0, 0, 1, 1, 2]))):
+                V, _k = draw(mutate(V, style))
+            events.append({"payload": {"p": V}, "extra": draw(st.dictionaries(st.sampled_from(["x"]), scalar, max_size=1))})
+        mut, shape_name = ["seq-generic"], "generic"
+    return {"form": "seq", "pattern": {"p": P}, "events": events, "via_var": draw(st.booleans()), "capture": draw(st.integers(0, 2)) > 0,
+            "priority": draw(priority), "style": style, "mut": mut, "shape": shape_name}
+
+
+def _seq_table():
+    # sequence table: groups of values that are == but print differently x regular expressions that tell their texts apart x EVERY
+    # order of the group (the first value once more at the end), shapes / statement forms / priorities rotating
+    table = [
+        ([1, 1.0, True, "1"], ["^1$", "rue", "\\.0$", "^1"]),
+        ([0, 0.0, False], ["^0$", "alse", "\\."]),
+        ([3, 3.0, "3.0"], ["^3$", "\\.0$"]),
+        ([2, 2.0, "2"], ["^2$", "\\."]),
+    ]
+    m = 0
+    for group, rxs in table:
+        for p in rxs:
+            rx = {"__regex__": p}
+            for perm in itertools.permutations(group):
+                m += 1
+                shape = m % len(SEQ_SHAPES)
+                vals = list(perm) + [perm[0]]
+                yield {"form": "seq", "pattern": {"p": _seq_shape(shape, rx, None)[0]},
+                       "events": [{"payload": {"p": _seq_shape(shape, rx, v)[1]}, "extra": {}} for v in vals],
+                       "via_var": bool(m % 2), "capture": m % 3 != 0, "priority": ([None] * 4 + PRIORITIES)[m % 8], "mut": ["seq-table"], "shape": SEQ_SHAPES[shape]}
+
+
 def strategy(tier):
     return _case()
 
@@ -838,6 +935,7 @@ def _long_table():
 
 
 def enumerate_cases(tier):
+    yield from _seq_table()
     yield from _number_table()
     yield from _long_table()
     # exhaustive table: all (P, V) over leaves {2, "a"}, containers of <= 2 leaves, depth <= 2 for lists
@@ -1203,11 +1301,73 @@ def _action_args_case(case):
     return ok(nt=d >= 1 or "escaped-string" in zw, labels=["action-args", "match" if expected else "no-match", f"depth{d}"] + zw + prio_labels, view={"start": f"XAction({_short(start_args)})", "statement": f"match XAction({pat_args}).Finished()", "matched": got})
 
 
+def _seq_prop(case):
+    """3-5 events reach ONE waiting statement (`while True` / `match Ev(p=P)` [`as $ref`] / `send Hit()`) one after the other; the
+    statement must advance on exactly those events whose own value matches P - whatever it has seen before."""
+    pats, style = case["pattern"], case.get("style")
+    args = ", ".join(f"{k}={lit(v, style)}" for k, v in pats.items())
+    if case.get("via_var"):
+        setup = "".join(f"  $v_{k} = {lit(v, style)}\n" for k, v in pats.items())
+        stmt_args = ", ".join(f"{k}=$v_{k}" for k in pats)
+    else:
+        setup, stmt_args = "", args
+    prio, prio_labels = _prio(case, "    ")
+    capture = " as $ref" if case.get("capture", True) else ""
+    program = f"flow main\n{setup}  while True\n{prio}    match Ev({stmt_args}){capture}\n    send Hit()\n"
+    desc = (f"`{prio.strip()}` then " if prio else "") + f"`match Ev({args}){capture}`" + (" (pattern held in variables)" if case.get("via_var") else "") + " in a loop"
+    state = smh.init(program)
+    story, seen, unjudged, flips, first_flip, verdicts = [], [], 0, 0, None, set()
+    for i, item in enumerate(case["events"]):
+        try:
+            expected = all(k in item["payload"] and ref_match(P, item["payload"][k]) for k, P in pats.items())
+        except Unspecified:
+            expected = None  # the event is sent (the statement sees it) but its own verdict is not judged
+        event = {"type": "Ev"}
+        for k, v in item["payload"].items():
+            event[k] = smh.to_py(v)
+        for k, v in item.get("extra", {}).items():
+            event[k] = v
+        got = "Hit" in smh.types(smh.feed(state, event))
+        story.append(f"{event!r} -> {'matched' if got else 'not matched'}" + (" (not judged: unspecified)" if expected is None else ""))
+        if expected is None:
+            unjudged += 1
+        elif got != expected:
+            raise Violation(
+                "match-verdict-event-sequence",
+                f"{desc}: event {i + 1} of {len(case['events'])} at the same waiting statement, {event!r}: interpreter {'matched' if got else 'did not match'}, "
+                f"rule says {'match' if expected else 'no match'} (every event is judged on its own value; a regex is searched in str(value)). History: {'; '.join(story)}",
+            )
+        else:
+            verdicts.add(expected)
+            # an earlier event carried a value that is == to this one but is another value (type / text) and had another verdict (or none)
+            py = {k: v for k, v in event.items() if k in pats}
+            if any(py == opy and repr(py) != repr(opy) and oexp != expected for opy, oexp in seen):
+                flips += 1
+                first_flip = first_flip or i + 1
+        seen.append(({k: v for k, v in event.items() if k in pats}, expected))
+    d = max(depth(P) for P in pats.values())
+    labels = ["event-sequence", f"seq-events-{len(case['events'])}", "seq-shape-" + case.get("shape", "generic")] + sorted(set(case.get("mut", [])))
+    if flips:
+        labels += ["seq-equal-values-different-verdict", f"seq-deciding-event-{first_flip}"]
+    if len(verdicts) == 2:
+        labels.append("seq-match-and-no-match")
+    if unjudged:
+        labels.append("seq-with-unjudged-bool-event")
+    if case.get("via_var"):
+        labels.append("pattern-in-variable")
+    labels.append("seq-with-capture" if capture else "seq-without-capture")
+    if any(has_zw(P) for P in pats.values()):
+        labels.append("zero-width-regex")
+    return ok(nt=bool(flips) or d >= 2, labels=labels + prio_labels + _string_labels(case), view={"program": program, "history": story})
+
+
 def prop(case):
     if case["form"] == "action_args":
         return _action_args_case(case)
     if case["form"] == "ref_rebind":
         return _rebind_prop(case)
+    if case["form"] == "seq":
+        return _seq_prop(case)
     if case["form"] != "param":
         return _instance_case(case)
     pats = case["pattern"]
